@@ -97,6 +97,7 @@ def check(pid, tier, args):
         tlc_rej = {n for n, _ in rejects}
         if not tlc_rej <= go_nonmember:
             raise vlib.Infra("TLC rejected events that the harness's membership test accepted")
+        unreproduced = []
         for n, pr in rejects:
             ev = json.loads(lines[n])
             # reproduce once more on the real code, from the concrete bytes
@@ -104,7 +105,13 @@ def check(pid, tier, args):
                            "%d:%d:%s" % (ev["id"], ev["variant"], ev["loader"])], timeout=600)
             again = json.loads(rp.stdout[:rp.stdout.index("\nallowed:")])
             if again["obs"] != ev["obs"]:
-                raise vlib.Infra("rejected observation did not reproduce: %s vs %s" % (again["obs"], ev["obs"]))
+                # an observation that depends on what else the process was doing (recycled
+                # storage, scheduling) may not come back in a fresh process: it is never a
+                # verdict by itself; the others are still tried
+                unreproduced.append("%s vs %s" % (again["obs"], ev["obs"]))
+                if len(unreproduced) > 40:
+                    break
+                continue
             run.violation({"finding_key": finding_key(pid, ev), "fmt": f, "case_id": ev["id"],
                            "variant": ev["variant"], "loader": ev["loader"], "file": ev["file"],
                            "observed": ev["obs"], "cases_from": "Containers_%s_repaired.cfg MaxLetters=%d" % (f, letters),
@@ -113,6 +120,10 @@ def check(pid, tier, args):
                               ev["loader"], json.dumps(ev["file"])[:160], json.dumps(ev["obs"])))
             if len(run.violations) >= 20:
                 break
+        if unreproduced:
+            run.note("%d rejected observations of %s did not reproduce in a fresh process (e.g. %s)" % (len(unreproduced), f, unreproduced[0]))
+            if not run.violations:
+                raise vlib.Infra("rejected observation did not reproduce: %s" % unreproduced[0])
     if pid in ("C05", "C06"):
         # C05: dimension sweeps, every header field driven through its bit patterns (binding T)
         # C06: the same sweep files (no profile: (nil, nil)) plus 255-chunk, full-size-chunk and multi-MiB embeddings
@@ -131,6 +142,32 @@ def check(pid, tier, args):
                            "file": ev["file"], "observed": ev["obs"], "source": "dimension sweep"},
                           "%s loader on %s: observed %s" % (ev["loader"], json.dumps(ev["file"]), json.dumps(ev["obs"])))
         run.cov["dimension_sweep_events"] = len(lines)
+    if pid in ("C05", "C06"):
+        # two loads at once: every interleaving of their sources' deliveries (Interleave.tla), each
+        # load compared with the same load executed alone (whose outcome the parts above decide)
+        import icchdr
+        scheds = icchdr.interleavings(run)
+        iso = os.path.join(sc, "iso")
+        os.makedirs(iso, exist_ok=True)
+        with open(os.path.join(iso, "scheds.ndjson"), "w") as f:
+            for k in range(2 if tier == "quick" else 20):
+                for s_ in scheds:
+                    f.write(json.dumps(s_) + "\n")
+        p = vlib.run([drive, "interleave", "-what", "loaders", "-scheds", os.path.join(iso, "scheds.ndjson"), "-out", iso,
+                      "-seed", str(vlib.seed() + (5 if pid == "C05" else 6)), "-repo", vlib.REPO], timeout=3000)
+        st = json.loads(p.stdout.strip().splitlines()[-1])
+        if st["followed"] * 2 < st["schedules"]:
+            raise vlib.Infra("only %d of %d loader interleavings could be forced" % (st["followed"], st["schedules"]))
+        run.cov["forced_loader_interleavings"] = st
+        results, rejects, lines = vlib.validate_trace("TraceIsolation", "TraceIsolation.cfg", os.path.join(iso, "iso.ndjson"), shards=2, heap="1g")
+        for res in results:
+            run.add_tlc("TraceIsolation", res)
+        total_events += len(lines)
+        for n, pr in rejects[:6]:
+            ev = json.loads(lines[n])
+            run.violation({"finding_key": None, "event": ev},
+                          "%s loader on %s while another loads %s (schedule %s): returned %s, alone it returns %s" % (
+                              ev["loader"], ev["file"], ev["other"], ev["sched"], ev["got"], ev["solo"]))
     run.cov["traces_validated_against_impl"] = total_events
     run.cov["exhaustive"] = True
     run.cov["bounds"] = {"jpeg_free_segments": letters, "variants_per_file": variants,
